@@ -610,6 +610,30 @@ func anchorAdvanceRule(p *Program, r *Reporter, fn *ssa.Function) {
 	}
 	anchors := map[*ssa.Phi]bool{}
 	cursors := map[*ssa.Phi]bool{}
+	// selectors written by a private helper: the argument bound to the helper's parameter in fn
+	for _, cf := range cluster(fn) {
+		if cf == fn {
+			continue
+		}
+		for _, b := range cf.Blocks {
+			for _, in := range b.Instrs {
+				x, ok := in.(*ssa.Call)
+				if !ok || x.Call.StaticCallee() == nil || x.Call.StaticCallee().Name() != "CreateAttr" || len(x.Call.Args) != 3 {
+					continue
+				}
+				if k, ok := constString(x.Call.Args[1]); !ok || k != "sel" {
+					continue
+				}
+				if prm, ok := x.Call.Args[2].(*ssa.Parameter); ok {
+					if arg := boundArgument(prm, fn); arg != nil {
+						for ph := range web(arg) {
+							anchors[ph] = true
+						}
+					}
+				}
+			}
+		}
+	}
 	for _, b := range fn.Blocks {
 		for _, in := range b.Instrs {
 			switch x := in.(type) {
